@@ -5,11 +5,10 @@ from props import sqlsched_gen as G
 ID = "C24"
 HARNESS_PKG = "c24"
 HARNESS_RUNNER = "c24"
-COQ_TARGETS = ["theories/C24/Corr.vo"]
-COQ_CORR_MODULE = "C23.Model C23.Corr C24.Model C24.Spec C24.Corr"
-COQ_CASE_TYPE = "C24.Corr.case"
-COQ_CHECK = "C24.Corr.check_case"
-COQ_MODEL_OBS = "(fun c => C24.Corr.model_obs (fst c))"
+COQ_TARGETS = ["theories/C24/Corr2.vo"]
+COQ_CORR_MODULE = "C23.Model C23.Corr C24.Model C24.Spec C24.Corr C24.Corr2"
+COQ_CASE_TYPE = "C24.Corr2.acase"
+COQ_CHECK = "C24.Corr2.check_any"
 COQ_SHARD = 400
 DESIGN_REF = "§5 C24"
 TECHNIQUE = ("Coq proof: invariant over every schedule of the transaction machine (statement-level enforcement as an explicit oracle hypothesis, "
@@ -39,7 +38,8 @@ RULE = ("txn cases: C23-style schedules over both tables (child keys 1-4, parent
 ASSUMPTIONS = ["constraints: PRIMARY KEY, NOT NULL, UNIQUE (one), CHECK, FOREIGN KEY (RESTRICT) on two tables; checks not disabled in the generated sessions",
                "branch-merge cases with data conflicts are reported as such (merr=5) and not judged"]
 REQUIRED_TAGS = ["commit-ok", "stmt-constraint-error", "commit-constraint-error", "commit-conflict", "merge-nonff",
-                 "merge-case", "rec-fk", "rec-unique", "rec-check", "merge-clean"]
+                 "merge-case", "rec-fk", "rec-unique", "rec-check", "merge-clean",
+                 "fkadd-case", "fkadd-parent-ref-updated", "fkadd-child-ref-updated", "fkadd-rec-fk", "fkadd-clean"]
 EXPLANATION = ("The model mirrors uniqValidator.validateDiff including its stale-entry behaviour: a merge that moves a unique value from one row to another is "
                "reported as a unique violation although the merged table is valid (spurious refusal of a transaction / spurious recorded violation of a branch "
                "merge); committed data stays consistent, so the property itself is not violated.")
@@ -156,11 +156,55 @@ FIXED = [
 ]
 
 
+def gen_fkadd(rng):
+    """base without a foreign key; main adds UNIQUE p(b) + FOREIGN KEY t(b) -> p(b); the other branch edits freely"""
+    bvals = rng.sample([0, 1, 2, 3], rng.randint(2, 3))
+    init = [[101 + i, rng.randint(0, 2), b] for i, b in enumerate(bvals)]
+    used = set()
+    for k in CH:
+        if rng.random() < 0.65:
+            b = rng.choice(bvals) if rng.random() < 0.9 else -1
+            a = _cv(rng)
+            if a >= 0 and (a in used or (b >= 0 and a > b)):
+                a = -1
+            if a >= 0:
+                used.add(a)
+            init.append([k, a, b])
+    right = []
+    for _ in range(rng.randint(1, 4)):
+        r = rng.random()
+        if r < 0.3:
+            right.append([0, K.K_UPDATE, rng.choice(init)[0] if False else 101 + rng.randrange(len(bvals)), 1, rng.randint(0, 4)])   # parent: referenced column
+        elif r < 0.55:
+            right.append([0, K.K_UPDATE, rng.choice(CH), 1, rng.randint(0, 4)])                      # child: referencing column
+        elif r < 0.7:
+            right.append([0, K.K_DELETE, 101 + rng.randrange(len(bvals)), 0, 0])
+        elif r < 0.85:
+            right.append([0, K.K_INSERT, rng.choice(CH), -1, rng.randint(0, 4)])
+        else:
+            right.append(gen_dml2(rng, 0))
+    left = [gen_dml2(rng, 0) for _ in range(rng.randint(0, 2))]
+    return {"mode": "fkadd", "init": init, "nsess": 0, "autos": [], "steps": [], "left": left, "right": right}
+
+
+FIXED_FKADD = [
+    # the other branch UPDATEs the referenced (non-pk) column of a parent row that a child points at
+    {"mode": "fkadd", "init": [[101, 0, 1], [102, 1, 2], [1, 0, 1], [2, 1, 2]], "nsess": 0, "autos": [], "steps": [], "left": [], "right": [[0, 5, 101, 1, 3]]},
+    # the other branch UPDATEs a child row to a value without a parent
+    {"mode": "fkadd", "init": [[101, 0, 1], [102, 1, 2], [1, 0, 1], [2, 1, 2]], "nsess": 0, "autos": [], "steps": [], "left": [], "right": [[0, 5, 1, 1, 3]]},
+    {"mode": "fkadd", "init": [[101, 0, 1], [102, 1, 2], [1, 0, 1], [2, 1, 2]], "nsess": 0, "autos": [], "steps": [], "left": [[0, 4, 3, 2, 2]],
+     "right": [[0, 6, 102, 0, 0], [0, 4, 4, -1, 4], [0, 5, 101, 1, 2]]},
+]
+
+
 def gen_cases(rng, tier):
     n = 300 if tier == "quick" else 9000
     cases = [dict(c) for c in FIXED]
     while len(cases) < n:
         cases.append(gen_merge(rng) if rng.random() < 0.4 else gen_txn(rng))
+    cases += [dict(c) for c in FIXED_FKADD]
+    for _ in range(100 if tier == "quick" else 3000):
+        cases.append(gen_fkadd(rng))
     return cases
 
 
@@ -194,6 +238,17 @@ def cq_input(case):
 
 
 def coq_case(case, out):
+    if case.get("mode") == "fkadd":
+        o = out.get("obs")
+        if o is None or out.get("err") or out.get("panic"):
+            # the set-up itself failed (e.g. the base data does not admit the FOREIGN KEY being added): not a judged case
+            return "F2 ({| f_merged := []; f_merr := 9 |}, {| fo_fk := [] |})"
+        return "F2 ({| f_merged := %s; f_merr := %d |}, {| fo_fk := %s |})" % (
+            cq_list(G.cq_row(r) for r in o["merged"]), o["mergeerr"], cq_list(str(v[1]) for v in o["vrows"] if v[0] == 1))
+    return "F1 " + coq_case_main(case, out)
+
+
+def coq_case_main(case, out):
     o = out.get("obs")
     inp = cq_input(case)
     if o is None or out.get("err") or out.get("panic"):
@@ -211,8 +266,24 @@ def coq_case(case, out):
 def classify(case, out):
     o = out.get("obs")
     if o is None:
-        return ["panic"]
+        return ["fkadd-setup-error"] if case.get("mode") == "fkadd" and not out.get("panic") else ["panic"]
     t = set()
+    if case.get("mode") == "fkadd":
+        t.add("fkadd-case")
+        if o["mergeerr"]:
+            t.add("fkadd-merge-conflict-or-error")
+            return sorted(t)
+        ok = [st for st, s in zip(case["left"] + case["right"], o["steps"]) if s["err"] == 0]
+        rights = case["right"]
+        if any(st[1] == K.K_UPDATE and st[2] >= 100 and st[3] == 1 for st in rights):
+            t.add("fkadd-parent-ref-updated")
+        if any(st[1] == K.K_UPDATE and st[2] < 100 and st[3] == 1 for st in rights):
+            t.add("fkadd-child-ref-updated")
+        if any(v[0] == 1 for v in o["vrows"]):
+            t.add("fkadd-rec-fk"); t.add("nontrivial")
+        if not o["vrows"]:
+            t.add("fkadd-clean")
+        return sorted(t)
     if case.get("mode") == "merge":
         t.add("merge-case")
         if o["mergeerr"] == 5:
@@ -243,7 +314,18 @@ def nontrivial(case, out):
     return "nontrivial" in classify(case, out)
 
 
+_SHRINK_BUDGET = [30]
+
+
 def shrink_candidates(case):
+    for c in _shrink_all(case):
+        if _SHRINK_BUDGET[0] <= 0:
+            return
+        _SHRINK_BUDGET[0] -= 1
+        yield c
+
+
+def _shrink_all(case):
     for f in ("steps", "left", "right", "init"):
         st = case.get(f, [])
         for i in range(len(st)):
